@@ -14,7 +14,7 @@ pub fn property() -> Property {
     Property {
         id: "C11",
         level: "exploration",
-        rule: "(1) hosts = ALL strings of 1..3 labels over {a,b,ab,ba,xa} + IPv4/bracketed IPv6 literals + mixed-case spellings + four names written with a trailing dot; no-proxy lists = ALL lists of <= 2 entries over {'', a, .a, b.a, A, ' a ', a., xa, an IPv4 literal, a bracketed IPv6 literal, ' .b'}; x scheme x {both proxies, http only, disabled flag}: exhaustive, once through ProxySettingsBuilder (entries verbatim) and once through the NO_PROXY environment variable (entries normalised as the statement says). (2) environment: assignments of the 8 variables {http,https,all,no}_proxy x lower/upper case over 7 values each {unset, empty, blank, valid http URL, valid https URL, socks5 URL, garbage, host:port without a scheme (name / IPv4)} for the six proxy variables, 7 values for the two no-proxy variables - all 9^6 x 7^2 = 26 040 609 in thorough, 20 000 sampled in quick; each shard process owns its environment; while each environment is in force a default-settings request (free function / fresh Session alternating) is sent as well and the address it dials must be an acceptable decision for THAT environment (thousands of different environments per process: stale process-wide state shows). (3) end-to-end send() through hook H1: the address dialled agrees with the decision. The request URL is decorated per case (explicit port, default port spelled out, userinfo, look-alike host text in path/query/fragment): only scheme and host decide. 'builder-sequences': EVERY sequence of four builder calls over {http_proxy(A), http_proxy(B), http_proxy(None), https_proxy(A), https_proxy(None)} plus a clone of the builder taken after two calls: the last call for a scheme decides. The workload runs in the native-tls and in the rustls flavour. Oracle: reference decision function and environment reader written from the statement, returning the SET of acceptable outcomes (singleton except in documented gray cases). Non-trivial: a proxy is configured for the scheme; distinct = hash(configuration, host).",
+        rule: "(1) hosts = ALL strings of 1..3 labels over {a,b,ab,ba,xa} + IPv4/bracketed IPv6 literals + mixed-case spellings + four names written with a trailing dot; no-proxy lists = ALL lists of <= 2 entries over {'', a, .a, b.a, A, ' a ', a., xa, an IPv4 literal, a bracketed IPv6 literal, ' .b'}; x scheme x {both proxies, http only, disabled flag}: exhaustive, once through ProxySettingsBuilder (entries verbatim) and once through the NO_PROXY environment variable (entries normalised as the statement says). (2) environment: assignments of the 8 variables {http,https,all,no}_proxy x lower/upper case over 7 values each {unset, empty, blank, valid http URL, valid https URL, socks5 URL, garbage, host:port without a scheme (name / IPv4)} for the six proxy variables, 7 values for the two no-proxy variables - all 9^6 x 7^2 = 26 040 609 in thorough, 20 000 sampled in quick; each shard process owns its environment; while each environment is in force a default-settings request (free function / fresh Session alternating) is sent as well and the address it dials must be an acceptable decision for THAT environment (thousands of different environments per process: stale process-wide state shows). (3) end-to-end send() through hook H1: the address dialled agrees with the decision. The request URL is decorated per case (explicit port, default port spelled out, userinfo, look-alike host text in path/query/fragment): only scheme and host decide. 'builder-sequences': EVERY sequence of four builder calls over {http_proxy(A), http_proxy(B), http_proxy(None), https_proxy(A), https_proxy(None)} plus a clone of the builder taken after two calls, starting from builder() / new() / Default::default(), with and without proxy variables in the environment at that moment: the builder starts empty and the last call for a scheme decides. The workload runs in the native-tls and in the rustls flavour. Oracle: reference decision function and environment reader written from the statement, returning the SET of acceptable outcomes (singleton except in documented gray cases). Non-trivial: a proxy is configured for the scheme; distinct = hash(configuration, host).",
         assumptions: &["gray (executed, not judged): builder entries with blanks / leading or trailing dots / wildcards, sub-'domains' of IP literals, a blank or invalid lower-case variable next to a valid upper-case one, padded or listed '*' in NO_PROXY"],
         min_nontrivial: |t| t.pick(20_000, 200_000),
         gens,
@@ -64,7 +64,7 @@ fn gens(tier: Tier) -> Vec<Gen> {
         Gen { name: "hostlist-builder", count: hostlist_count(), exhaustive: true, run: run_hostlist_builder },
         Gen { name: "hostlist-env", count: hostlist_count(), exhaustive: true, run: run_hostlist_env },
         Gen { name: "env", count: tier.pick(20_000, ENV_SPACE), exhaustive: tier == Tier::Thorough, run: run_env },
-        Gen { name: "builder-sequences", count: (5 * 5 * 5 * 5) as u64, exhaustive: true, run: run_builder_sequences },
+        Gen { name: "builder-sequences", count: (5 * 5 * 5 * 5 * 2 * 3) as u64, exhaustive: true, run: run_builder_sequences },
         Gen { name: "other-schemes", count: (5 * 3 * 2 * 2) as u64, exhaustive: true, run: run_other_schemes },
         Gen { name: "env-non-unicode", count: (4 * 4) as u64, exhaustive: true, run: run_env_non_unicode },
         Gen { name: "end-to-end", count: tier.pick(200, 2_000), exhaustive: false, run: run_e2e },
@@ -114,9 +114,25 @@ fn target_url(scheme: &str, host: &str, k: u64) -> Url {
 fn run_builder_sequences(ctx: &mut Ctx, _rng: &mut Rng, index: u64) {
     let a = "http://proxy-a.test:3128/";
     let b = "http://proxy-b.test:3129/";
-    let mut builder = ProxySettings::builder();
+    // the builder starts EMPTY however it is obtained - builder(), new() or Default::default() - and
+    // whatever the environment says at that moment (half of the cases run under proxy variables
+    // that would send everything to another proxy, or nothing at all)
+    let under_env = (index / 625) % 2 == 1;
+    clear_env();
+    if under_env {
+        std::env::set_var("http_proxy", "http://env-proxy.test:1");
+        std::env::set_var("HTTPS_PROXY", "http://env-proxy.test:2");
+        std::env::set_var("no_proxy", if index % 2 == 0 { "origin.test" } else { "*" });
+        ctx.count("builder_sequences_under_proxy_variables", 1);
+    }
+    let mut builder = match (index / 1250) % 3 {
+        0 => ProxySettings::builder(),
+        1 => attohttpc::ProxySettingsBuilder::new(),
+        _ => attohttpc::ProxySettingsBuilder::default(),
+    };
+    clear_env();
     let (mut http, mut https): (Option<&str>, Option<&str>) = (None, None);
-    let mut i = index;
+    let mut i = index % 625;
     let mut ops = Vec::new();
     let mut template = None;
     for step in 0..4 {
